@@ -26,6 +26,11 @@ claim("C02",
       "Trusted: Lean kernel, 3 axioms, extractor, oracle hooks, generator (which names carry the must-go stem). Not modelled: compiler, assembler, linker output; sampled by the scan.",
       "Lean 4 proof (decision exceptions, link flags, importcfg, positions) + oracle/model differential + binary scan", "DESIGN.md 5/C02")
 
+claim("C04",
+      "Lean 4 theorems over a specification of multi-string replacement (leftmost position, first listed pair, non-overlapping) and of the line-wise driver reverseContent, for all pair lists and all inputs: passthrough (any bytes, any line endings, with or without final newline: if no line contains a key, output = input and modified = false), not_modified_output_eq, specific_first (name.go:1 listed before name.go maps frame :1 to file:LINE and any other :N to file:N), roundtrip_unique_parse (every obfuscated name written into otherwise clean text is replaced by its original and the surrounding text kept byte for byte, by induction over an arbitrary template of text and name segments, under the explicit unique-parse hypothesis), forward_position_in_reverse_table (the file name written by the build is the key reverse computes, for base-name files). Tie: 1500 random pair lists/inputs through the real reverseContent + strings.NewReplacer and through the replacer garble injects into binaries vs. the specification; end to end, panicking and debug.Stack programs (methods, generic functions/methods, closures, defers, goroutines, two packages and files) are built with garble and `garble reverse` of the obfuscated trace must equal the regular -trimpath build's trace; clean text must pass through with exit status 1.",
+      "Trusted: Lean kernel, 3 axioms, oracle hooks, trace canonicalisation (addresses, goroutine ids). Not modelled: the go/printer + go/scanner pairing of identifiers to call offsets in position.go (sampled end to end).",
+      "Lean 4 proof (replacement spec, pass-through, round trip) + oracle/model differential + end-to-end trace comparison", "DESIGN.md 5/C04")
+
 claim("C05",
       "Lean 4 theorems over a model of the literal obfuscators (decoder IR with one constructor per emitted shape; build = what the Go code computes at obfuscation time; eval = meaning of the emitted decoder), for EVERY plaintext of every length and EVERY outcome of the random draws meeting explicit side conditions: rev_eval (evalOperator vs operatorToReversedBinaryExpr on all bytes), slicelit_roundtrip (external-key statement lists of any length with repeated or out-of-range indexes are undone by the reversed list), byteexpr_roundtrip, simple_roundtrip, seed_roundtrip, swap_roundtrip (forward decoder loop undoes the backward encoder loop, positions may repeat or coincide, Go's tuple-assignment order modelled), shuffle_roundtrip (any permutation of the doubled array, any index-key positions), junk_slice and array_copy for the wrappers. `split` is evaluated by the model and executed for every sample but its roundtrip is not yet a theorem. Tie: for ~220 (obfuscator, seed, plaintext) cases per run the REAL obfuscator emits a decoder, tools/gvgen litparse reads the Go syntax into the IR, the Lean model evaluates it (must equal the plaintext) and the Go compiler compiles and runs the very same decoders (must print the plaintext); whole files go through the real literals.Obfuscate (every syntactic context incl. const/array-length/case-label/-X/nosplit, junk, proxy structs), are compiled and must print what the original prints.",
       "Trusted: Lean kernel, 3 axioms, extractor, hooks, litparse (syntax to IR), Go compiler as the semantics of the emitted subset. Assumed: math/rand contracts (Intn(n) < n, Perm is a permutation) for well-formedness of the draws.",
